@@ -147,6 +147,42 @@ def prepare_scenario(mesh, c, k):
     return {"V": [vec(v) for v in mesh.vertices], "F": [[int(x) for x in f] for f in mesh.faces]}
 
 
+def fnet(P):
+    return [[float(x) for x in p] for p in P]
+
+
+def alias_steps(obj, c):
+    """c["alias"] = {"pre": [step, ...], "op": ["add"|"mul", k]}: value-semantics scenario. Each step obtains points
+    from the object the way a caller would ({"at": t} / {"at": [u, v]}: evaluate; {"export": n} / {"export": [n1, n2]}:
+    as_polyline / as_surface vertices) and modifies the RETURNED arrays in place; the evaluation / export observed
+    afterwards must still be the one of the control net the object was built from."""
+    al = c.get("alias")
+    if not al:
+        return
+    kind, kk = al["op"]
+
+    def mutate(p):
+        try:
+            if kind == "add":
+                p += kk
+            else:
+                p *= kk
+        except Exception:
+            pass
+    for st in al["pre"]:
+        try:
+            if "at" in st:
+                a = st["at"]
+                mutate(obj.evaluate(*a) if isinstance(a, list) else obj.evaluate(a))
+            else:
+                e = st["export"]
+                m = obj.as_surface(*e) if isinstance(e, list) else obj.as_polyline(n_pts=e)
+                for v in m.vertices:
+                    mutate(v)
+        except Exception:
+            pass   # a rejected parameter in a preliminary step is not what this case observes
+
+
 def run_case(c):
     import mouette as M
     from mouette import sampling
@@ -193,13 +229,16 @@ def run_case(c):
                     obs["normals"] = [vec(at[i]) for i in range(len(r.vertices))]
                 obs["out"] = points_of(r, c["pc"])
             elif k == "curve":
-                cu = M.splines.BezierCurve([list(p) for p in c["P"]])
+                cu = M.splines.BezierCurve(fnet(c["P"]))
+                alias_steps(cu, c)
                 obs["out"] = vec(cu.evaluate(c["t"]))
             elif k == "patch":
-                pa = M.splines.BezierPatch([[list(p) for p in row] for row in c["rows"]])
+                pa = M.splines.BezierPatch([fnet(row) for row in c["rows"]])
+                alias_steps(pa, c)
                 obs["out"] = vec(pa.evaluate(c["u"], c["v"]))
             elif k == "polylinex":
-                cu = M.splines.BezierCurve([list(p) for p in c["P"]])
+                cu = M.splines.BezierCurve(fnet(c["P"]))
+                alias_steps(cu, c)
                 kwargs = {}
                 if c["n_pts"] is not None:
                     kwargs["n_pts"] = c["n_pts"]
@@ -211,7 +250,8 @@ def run_case(c):
                 obs["t"] = [fl(at[i]) for i in range(len(pl.vertices))]
                 obs["edges"] = [[int(a), int(b)] for a, b in pl.edges]
             elif k == "surfacex":
-                pa = M.splines.BezierPatch([[list(p) for p in row] for row in c["rows"]])
+                pa = M.splines.BezierPatch([fnet(row) for row in c["rows"]])
+                alias_steps(pa, c)
                 sm = pa.as_surface(c["n1"], c["n2"])
                 at = sm.vertices.get_attribute("uv_coords")
                 obs["verts"] = [vec(v) for v in sm.vertices]
